@@ -5,7 +5,7 @@ cd /repo || exit 9
 if [ -n "$(git status --porcelain)" ]; then echo "/repo not clean"; exit 9; fi
 git apply "$1" || { echo "patch does not apply"; exit 9; }
 cd /verif
-./check "$2" --tier "${3:-quick}" > /dev/shm/mut_out.txt 2>&1
+VERIF_MAX_REPORT=${VERIF_MAX_REPORT:-2} ./check "$2" --tier "${3:-quick}" > /dev/shm/mut_out.txt 2>&1
 rc=$?
 git -C /repo checkout -- .
 grep -E "^(VIOLATION|KNOWN-FINDING|BROKEN|C[0-9]+ )|what:" /dev/shm/mut_out.txt | cut -c1-400 | head -${LINES_SHOWN:-14}
